@@ -73,6 +73,9 @@ func checkCase(t ev.TB, fe *fontEntry, c *Case, survey func(class string, f fail
 		labels = append(labels, "flags_default_ignorables")
 	}
 	labels = append(labels, "font_"+stratum(fe.traits))
+	if fe.synth != nil {
+		labels = append(labels, synthLabels(fe, c, want.Dir)...)
+	}
 	labels = append(labels, textLabels(fe, c)...)
 	if c.Invisible != 0 {
 		labels = append(labels, "invisible_glyph_set")
@@ -122,10 +125,32 @@ func checkCase(t ev.TB, fe *fontEntry, c *Case, survey func(class string, f fail
 			return
 		}
 	} else {
-		// glyph flags: labelled only (C18 owns them)
+		// glyph flags: labelled only on corpus fonts (C18 owns them); on generated fonts, where both
+		// sides read the same small rule system, unsafe-to-break and (when requested) unsafe-to-
+		// concat are part of the comparison
+		// (unsafe-to-concat, requested by flag 0x40, is labelled only: libharfbuzz 6.0.0 predates
+		// part of the places where the upstream the port tracks produces it, e.g. the class-0 exit
+		// of PairPos format 2 and the failing paths of context matching)
+		mask := uint32(1)
+		if c.Flags&0x40 != 0 {
+			for i := range got.Glyphs {
+				if got.Glyphs[i].Flags&2 != want.Glyphs[i].Flags&2 {
+					ev.Label("unsafe_to_concat_flag_differs")
+					break
+				}
+			}
+		}
 		for i := range got.Glyphs {
-			if got.Glyphs[i].Flags&1 != want.Glyphs[i].Flags&1 {
+			if got.Glyphs[i].Flags&mask != want.Glyphs[i].Flags&mask {
 				ev.Label("unsafe_to_break_flag_differs")
+				if fe.synth != nil {
+					if cls := triageFlags(fe, c, got, want); cls != "" {
+						ev.Excluded(cls)
+						break
+					}
+					fail("flags", "glyph-flags", got.Glyphs, want.Glyphs, "glyph flags differ at glyph %d (port %d, reference %d; 1 unsafe-to-break, 2 unsafe-to-concat)", i, got.Glyphs[i].Flags&mask, want.Glyphs[i].Flags&mask)
+					return
+				}
 				break
 			}
 		}
@@ -464,7 +489,7 @@ func TestReplay(t *testing.T) {
 		if err := json.Unmarshal(raw, &c); err != nil {
 			t.Fatalf("replay %s: %v", p, err)
 		}
-		fe, err := loadFont(c.Font, c.Index)
+		fe, err := caseFont(&c)
 		if err != nil {
 			t.Fatalf("replay %s: %v", p, err)
 		}
@@ -487,7 +512,7 @@ func TestOne(t *testing.T) {
 	if err := json.Unmarshal([]byte(s), &c); err != nil {
 		t.Fatal(err)
 	}
-	fe, err := loadFont(c.Font, c.Index)
+	fe, err := caseFont(&c)
 	if err != nil {
 		t.Fatal(err)
 	}
@@ -644,7 +669,7 @@ func TestMinimize(t *testing.T) {
 	if err := json.Unmarshal([]byte(s), &c); err != nil {
 		t.Fatal(err)
 	}
-	fe, err := loadFont(c.Font, c.Index)
+	fe, err := caseFont(&c)
 	if err != nil {
 		t.Fatal(err)
 	}
@@ -681,7 +706,7 @@ func TestMinimizeSurvey(t *testing.T) {
 			continue
 		}
 		c := *row.Failure.Case
-		fe, err := loadFont(c.Font, c.Index)
+		fe, err := caseFont(&c)
 		if err != nil || !disagree(fe, &c) {
 			continue
 		}
